@@ -16,7 +16,7 @@ import ScyllaVerif.Model.ConnIO
     server does not owe, `b<hex>` raw bytes from the server, `x` server closes, `g`/`G` close/open a gate on
     the client's writes (the writer blocks in `flush`, later tasks stay in the submit channel; behind the gate
     the 1024-slot submit channel fills up: further callers park — `submitFull`, later `enqueue`),
-    `w` the client's writes fail from now on (`WriteError`), `t<ms>` virtual time (keep-alive; the orphaner's
+    `w` the client's writes fail from now on (`WriteError`), `h` a keep-alive hint (`trigger_keepalive`), `t<ms>` virtual time (keep-alive; the orphaner's
     1 s tick: more than 1024 stream ids orphaned for ≥ 1 s → `TooManyOrphanedStreamIds`).
   The reader (`ConnIO.reader`) and the keepaliver (`ConnIO.kaTurn`) are the model's.
 -/
@@ -150,6 +150,7 @@ structure ConnSt where
   clock : Nat := 0
   kaNext : Nat := 0
   kaPending : Option (Nat × Nat) := none
+  kaHint : Bool := false        -- `trigger_keepalive` was called and the keepaliver has not consumed the hint yet
   orphTimes : List (Nat × Nat) := []   -- orphaned stream id ↦ when it was orphaned (`OrphanageTracker`)
   granted : List Nat := []      -- parked callers to which tokio's semaphore has assigned freed capacity; they still
                                 -- sit in `reserve()` (model: `sending`) until they are polled (`enqueue`)
@@ -187,7 +188,17 @@ def orphanN : Nat → Conn → Conn
   | n + 1, c => orphanN n (step c .orphanerStep)
 
 def toKa (st : ConnSt) (interval timeout : Nat) : KaSt :=
-  { c := st.c, interval := interval, timeout := timeout, clock := st.clock, next := st.kaNext, pending := st.kaPending }
+  { c := st.c, interval := interval, timeout := timeout, clock := st.clock, next := st.kaNext, pending := st.kaPending,
+    hint := st.kaHint, full := decide (st.c.queue.length + st.granted.length ≥ chanCap) }
+
+/-- The keepaliver runs on the router task (a real waker): capacity assigned to its parked request is used at once. -/
+def kaPush (st : ConnSt) : ConnSt :=
+  match st.kaPending with
+  | some (r, _) =>
+    if st.granted.contains r && !st.c.broken then
+      { st with c := step st.c (.enqueue r), granted := st.granted.filter (· != r) }
+    else st
+  | none => st
 
 /-- One turn of the router task: keepaliver, writer (one batch), orphaner. -/
 def routerTurn (st : ConnSt) : ConnSt :=
@@ -195,12 +206,12 @@ def routerTurn (st : ConnSt) : ConnSt :=
     | none => st
     | some (i, t) =>
       let k := kaTurn (toKa st i t)
-      { st with c := k.c, kaNext := k.next, kaPending := k.pending }
+      { st with c := k.c, kaNext := k.next, kaPending := k.pending, kaHint := k.hint }
   let st1 :=
     if st.c.broken || st.blocked || st.c.queue.isEmpty then st else
     let n := st.c.queue.length
     let st' := takeN n st
-    let st' := grantN n st'
+    let st' := kaPush (grantN n st')
     if st.writeFail then { st' with c := step st'.c (.break_ .writeError) }
     else if st.gateClosed then { st' with blocked := true } else st'
   syncOrph { st1 with c := orphanN st1.c.notices.length st1.c }
@@ -255,7 +266,7 @@ def submitEv (st : ConnSt) : Ev :=
 def cancelReq (st : ConnSt) (r : Nat) : ConnSt :=
   let had := st.granted.contains r
   let st := { st with c := step st.c (.cancel r), granted := st.granted.filter (· != r) }
-  if had && !st.c.broken then grantN 1 st else st
+  if had && !st.c.broken then kaPush (grantN 1 st) else st
 
 /-- Polling request `r`'s future: a parked caller that was assigned capacity pushes its task (`enqueue`; if the
 channel has been closed meanwhile its `reserve()` fails instead — it already holds `ChannelError`), any other
@@ -284,6 +295,9 @@ def connOp (st : ConnSt) (op : String) : Option ConnSt :=
       noArg (settle (cancelReq st1 r))
     else if c == 'g' then noArg { st with gateClosed := true }
     else if c == 'G' then noArg (openGate st)
+    else if c == 'h' then
+      -- `Connection::trigger_keepalive`: without a keepaliver nobody consumes the permit
+      noArg (if st.ka.isNone then st else settle { st with kaHint := true })
     else if c == 'w' then
       let st := { st with writeFail := true }
       -- a writer waiting in `flush` is woken and fails
